@@ -249,6 +249,8 @@ pub(crate) trait ChangeMarker {
     fn change_marker(&self) -> &Arc<RwLock<bool>>;
 
     fn changed(&self) -> bool {
+        #[cfg(stam_verif)]
+        crate::verif::yield_point(crate::verif::SITE_GET_CHANGED);
         let mut result = true;
         if let Ok(changed) = self.change_marker().read() {
             result = *changed;
@@ -257,12 +259,16 @@ pub(crate) trait ChangeMarker {
     }
 
     fn mark_changed(&self) {
+        #[cfg(stam_verif)]
+        crate::verif::yield_point(crate::verif::SITE_MARK_CHANGED);
         if let Ok(mut changed) = self.change_marker().write() {
             *changed = true;
         }
     }
 
     fn mark_unchanged(&self) {
+        #[cfg(stam_verif)]
+        crate::verif::yield_point(crate::verif::SITE_MARK_UNCHANGED);
         if let Ok(mut changed) = self.change_marker().write() {
             *changed = false;
         }
